@@ -26,6 +26,12 @@ import (
 type SubmitNodeSpec struct {
 	NodeVersion    string `json:"node_version"`
 	NodeVersionErr bool   `json:"node_version_err,omitempty"`
+	ErrKind        string `json:"err_kind,omitempty"` // kind of the node version failure
+	// APIStatus: if non-zero the submission error is an *api.Error with this status whose body is
+	// ErrText (its text is then "POST failed with status <n>: <ErrText>"), optionally joined to a
+	// context message; otherwise it is a plain error with the text ErrText.
+	APIStatus int  `json:"api_status,omitempty"`
+	Joined    bool `json:"joined,omitempty"`
 	// ErrText is the text of the error the client library returns for the submission
 	// ("" = the submission succeeds).  go-eth2-client formats a rejected POST as
 	// "POST failed with status <code>: <response body>", so the text after the prefix is
@@ -50,12 +56,20 @@ func (n *submitNode) IsActive() bool  { return true }
 func (n *submitNode) IsSynced() bool  { return true }
 func (n *submitNode) NodeVersion(context.Context, *api.NodeVersionOpts) (*api.Response[string], error) {
 	if n.spec.NodeVersionErr {
-		return nil, errors.New("scripted node version failure")
+		return nil, clientError(n.spec.ErrKind, "v1/node/version")
 	}
 	return &api.Response[string]{Data: n.spec.NodeVersion, Metadata: map[string]any{}}, nil
 }
 func (n *submitNode) result() error {
-	if t := n.spec.ErrText.Bytes(); len(t) > 0 {
+	t := n.spec.ErrText.Bytes()
+	if n.spec.APIStatus != 0 {
+		var err error = &api.Error{Method: "POST", Endpoint: "/eth/v1/beacon/pool", StatusCode: n.spec.APIStatus, Data: append([]byte{}, t...)}
+		if n.spec.Joined {
+			err = errors.Join(errors.New("failed to submit"), err)
+		}
+		return err
+	}
+	if len(t) > 0 {
 		return errors.New(string(t))
 	}
 	return nil
@@ -121,6 +135,14 @@ const (
 	sigNullFailureContributions = "panic:services/submitter/multinode/submitsynccommitteecontributions.go:handleSubmitSyncCommitteeContributionsError:nil-deref"
 )
 
+// errString is the text of the node's submission error ("" = success).
+func (n *SubmitNodeSpec) errString() string {
+	if err := (&submitNode{spec: n}).result(); err != nil {
+		return err.Error()
+	}
+	return ""
+}
+
 func serverTypeOf(n *SubmitNodeSpec) string {
 	if n.NodeVersionErr {
 		return ""
@@ -144,7 +166,7 @@ func runClassifier(c *ClassifierCase, out *outcome) {
 	// could not continue behind a dead process); the exclusion is counted.
 	for i := range c.Nodes {
 		n := &c.Nodes[i]
-		if !nullFailureIn(n.ErrText.String()) {
+		if !nullFailureIn(n.errString()) {
 			continue
 		}
 		st := serverTypeOf(n)
@@ -228,7 +250,7 @@ func runClassifier(c *ClassifierCase, out *outcome) {
 	// document (it contains '{') on a node whose type has a classifier.
 	for i := range c.Nodes {
 		n := &c.Nodes[i]
-		txt := n.ErrText.String()
+		txt := n.errString()
 		if txt == "" {
 			out.label("classifier:node-success")
 			continue
@@ -336,7 +358,10 @@ func genClassifierCase(t *rapid.T) Case {
 		c.Nodes = append(c.Nodes, SubmitNodeSpec{
 			NodeVersion:    rapid.SampledFrom(nodeVersions).Draw(t, "nodeVersion"),
 			NodeVersionErr: rapid.IntRange(0, 11).Draw(t, "nodeVersionErr") == 0,
+			ErrKind:        genErrKind(t, "nodeVersionErrKind"),
 			ErrText:        blobOf(genErrText(t)),
+			APIStatus:      rapid.SampledFrom([]int{0, 0, 0, 400, 400, 404, 500, 503, 202}).Draw(t, "apiStatus"),
+			Joined:         rapid.Bool().Draw(t, "joined"),
 		})
 	}
 	return Case{Target: "classifier", Classifier: c}
